@@ -293,6 +293,11 @@ theorem samap_cap_no_panic (j : JVal) (p : List Bytes) : samapCap LibCfg.fixed j
 theorem samap_set_no_panic (j : JVal) (p : List Bytes) (src : Src) : samapSet LibCfg.fixed j p src ≠ .panic :=
   C18.set_no_panic j p src
 theorem samap_copy_no_panic (j : JVal) : (samapCpy LibCfg.fixed j).isSome = true := C18.copy_no_panic j
+/-- Loop: every root node (all argument forms of the harness: `rootJ`), every key path. -/
+theorem samap_loop_no_panic (j : JVal) (p : List Bytes) : samapLoop LibCfg.fixed j p ≠ .panic := C18.loop_no_panic j p
+/-- Reset: every argument form, every tree (`none` is the panic). -/
+theorem samap_reset_no_panic (f : Form) (m : JVal) : (samapReset LibCfg.fixed f m).isSome = true :=
+  C18.reset_no_panic f m
 /-- The same for any configuration with the nil-pointer switches off (for `LibCfg.repo` once they are). -/
 theorem samap_no_panic_cfg (cfg : LibCfg) (hc : cfg.samapNilPtrPanics = false) (hs : cfg.staticNilPtrPanics = false)
     (j : JVal) (p : List Bytes) (op : Op) (right : Seg) (src : Src) :
@@ -300,6 +305,10 @@ theorem samap_no_panic_cfg (cfg : LibCfg) (hc : cfg.samapNilPtrPanics = false) (
     samapCap cfg j p ≠ .panic ∧ samapSet cfg j p src ≠ .panic ∧ (samapCpy cfg j).isSome = true :=
   ⟨C18.get_no_panic_cfg cfg hc j p, C18.cmp_no_panic_cfg cfg hc hs j p op right, C18.len_no_panic_cfg cfg hc j p,
    C18.cap_no_panic_cfg cfg hc j p, C18.set_no_panic_cfg cfg hc j p src, C18.copy_no_panic_cfg cfg hc j⟩
+theorem samap_loop_reset_no_panic_cfg (cfg : LibCfg) (hc : cfg.samapNilPtrPanics = false)
+    (j : JVal) (p : List Bytes) (f : Form) (m : JVal) :
+    samapLoop cfg j p ≠ .panic ∧ (samapReset cfg f m).isSome = true :=
+  ⟨C18.loop_no_panic_cfg cfg hc j p, C18.reset_no_panic_cfg cfg hc f m⟩
 /-- ReflectInspector.Get (the only method of that inspector that does anything) never panics: every tree, every value
 (nil pointers, nil collections), every path, the four argument forms of the harness. -/
 theorem reflect_get_no_panic (n : Node) (nilRoot : Bool) (v : Val) (p : List Bytes) :
